@@ -631,14 +631,19 @@ Definition trim_right0 (b : bytes) : bytes := rev (drop0 (rev b)).   (* bytes.Tr
 Inductive ferr := FShortHeader | FMagic | FLength | FShortPayload | FChecksum | FDecode (e : derr).
 Inductive fres := FOk (m : msg E) (len : N) (lf : list lenient) (consumed : nat) (rest : bytes) | FErr (e : ferr).
 
-(** ReadMessage on the bytes a reader will deliver (a reader that ends early gives the io error). *)
-Definition read_message (magic : N) (stream : bytes) : fres :=
-  if (length stream <? MSG_HDR_LEN)%nat then FErr FShortHeader else        (* io.ReadFull(hdr) *)
-  let hs := src_new (firstn MSG_HDR_LEN stream) in
+(** readMessageHeader on the MSG_HDR_LEN bytes io.ReadFull delivered (eof flags are ignored there). *)
+Definition parse_header (h : bytes) : N * bytes * N * bytes :=
+  let hs := src_new h in
   let '(hmagic, _, hs1) := next_uint32 hs in
   let '(cmd, _, hs2) := next_bytes hs1 (N.of_nat MSG_CMD_LEN) in
   let '(len, _, hs3) := next_uint32 hs2 in
   let '(cks, _, _) := next_bytes hs3 (N.of_nat CHECKSUM_LEN) in
+  (hmagic, copy_into MSG_CMD_LEN cmd, len, copy_into CHECKSUM_LEN cks).
+
+(** ReadMessage on the bytes a reader will deliver (a reader that ends early gives the io error). *)
+Definition read_message (magic : N) (stream : bytes) : fres :=
+  if (length stream <? MSG_HDR_LEN)%nat then FErr FShortHeader else        (* io.ReadFull(hdr) *)
+  let '(hmagic, cmd, len, cks) := parse_header (firstn MSG_HDR_LEN stream) in
   if negb (hmagic =? magic) then FErr FMagic else
   if MAX_PAYLOAD_LEN <? len then FErr FLength else
   let body := skipn MSG_HDR_LEN stream in
@@ -655,10 +660,7 @@ Definition read_message (magic : N) (stream : bytes) : fres :=
     once the magic and length checks have passed (before any payload byte is read). *)
 Definition read_message_alloc (magic : N) (stream : bytes) : N :=
   if (length stream <? MSG_HDR_LEN)%nat then N.of_nat MSG_HDR_LEN else
-  let hs := src_new (firstn MSG_HDR_LEN stream) in
-  let '(hmagic, _, hs1) := next_uint32 hs in
-  let '(_, _, hs2) := next_bytes hs1 (N.of_nat MSG_CMD_LEN) in
-  let '(len, _, _) := next_uint32 hs2 in
+  let '(hmagic, _, len, _) := parse_header (firstn MSG_HDR_LEN stream) in
   if negb (hmagic =? magic) then N.of_nat MSG_HDR_LEN else
   if MAX_PAYLOAD_LEN <? len then N.of_nat MSG_HDR_LEN else N.of_nat MSG_HDR_LEN + len.
 
